@@ -50,6 +50,9 @@ type Via struct {
 	Cond func(f *FuncInfo, e ast.Expr) (id string, passVal bool, ok bool)
 	// Stmt matches a statement node that establishes the fact by being executed (e.g. a store).
 	Stmt func(f *FuncInfo, n ast.Node) (id string, ok bool)
+	// StmtIn is like Stmt but sees the facts holding before the statement and is applied after the statement's kills
+	// (copies `a = b` carry b's fact over to a; `a = <const>` re-establishes a's fact).
+	StmtIn func(f *FuncInfo, n ast.Node, has func(id string) bool) (ids []string)
 }
 
 // PassSpec configures one must-pass analysis.
@@ -345,6 +348,19 @@ func (s *PassSpec) node(f *FuncInfo, ref NodeRef, in FactSet) FactSet {
 	info := f.Info()
 	if _, isDefer := n.(*ast.DeferStmt); isDefer && s.SkipDefer {
 		return in
+	}
+	var after []string
+	for _, v := range s.Vias {
+		if v.StmtIn != nil {
+			after = append(after, v.StmtIn(f, n, func(id string) bool { return in["pass:"+id] })...)
+		}
+	}
+	if len(after) > 0 {
+		defer func() {
+			for _, id := range after {
+				in["pass:"+id] = true
+			}
+		}()
 	}
 	// reassignment kills pending facts on the assigned objects
 	assigned := AssignedObjs(info, n)
